@@ -139,6 +139,13 @@ pub fn c04(r: &mut Report) {
         corpus: false,
     };
     run_plan(r, &plan);
+    // the whole atomic method surface of every atomic type against std, boundary operands
+    let n_atomic = if r.quick() { 300 } else { 6_000 };
+    let aseed = r.seed;
+    let accs = oracle::parallel(n_atomic, oracle::workers(), |i, acc: &mut Acc| super::atomics::check(aseed.wrapping_mul(1_000_003).wrapping_add(i as u64), 60, acc));
+    for a in accs {
+        a.merge_into(r);
+    }
     // poisoning clause: panics caught inside the holder, every schedule of small scenario programs
     let scens = super::poison::scenarios();
     let cap = if r.quick() { 3_000 } else { 60_000 };
@@ -146,6 +153,7 @@ pub fn c04(r: &mut Report) {
     for a in accs {
         a.merge_into(r);
     }
+    r.rule.push_str("; atomic API differential: load/store/swap/compare_exchange(_weak)/compare_and_swap/fetch_add/sub/and/nand/or/xor/max/min/fetch_update/into_inner of AtomicU8..Usize, I8..Isize, Bool, Ptr driven with boundary and random operands, every return value and the final content compared with std::sync::atomic driven by the same sequence");
     r.rule.push_str("; poisoning: scenario programs in which 1-2 tasks panic (caught inside the task) while holding a Mutex / RwLock write / RwLock read guard and 1-2 observers lock, try-lock, read and write around them, every schedule enumerated: an acquisition reports Poisoned () exactly when a panicking exclusive holder preceded it since the last clear_poison, a panicking reader never poisons, nobody deadlocks");
 }
 
